@@ -610,7 +610,7 @@ func binop(op token.Token, t types.Type, x, y value) value {
 	case token.SHL:
 		u, ok := asUnsigned(y)
 		if !ok {
-			panic("negative shift amount")
+			panic(runtimeErrString("negative shift amount"))
 		}
 		y := asUint64(u)
 		switch x.(type) {
@@ -641,7 +641,7 @@ func binop(op token.Token, t types.Type, x, y value) value {
 	case token.SHR:
 		u, ok := asUnsigned(y)
 		if !ok {
-			panic("negative shift amount")
+			panic(runtimeErrString("negative shift amount"))
 		}
 		y := asUint64(u)
 		switch x.(type) {
@@ -947,7 +947,7 @@ func typeAssert(i *interpreter, instr *ssa.TypeAssert, itf iface) value {
 
 	if err != "" {
 		if !instr.CommaOk {
-			panic(err)
+			panic(runtimeErrString(err))
 		}
 		return tuple{zero(instr.AssertedType), false}
 	}
@@ -1397,7 +1397,7 @@ func sliceToArrayPointer(t_dst, t_src types.Type, x value) value {
 			if arr, ok := ptr.Elem().Underlying().(*types.Array); ok {
 				x := x.([]value)
 				if arr.Len() > int64(len(x)) {
-					panic("array length is greater than slice length")
+					panic(runtimeErrString("cannot convert slice to array: length too short"))
 				}
 				if x == nil {
 					return zero(t_dst)
